@@ -21,6 +21,7 @@ import (
 	"fmt"
 	"os"
 	"regexp"
+	"sync"
 	"unsafe"
 
 	"github.com/xujiajun/utils/strconv2"
@@ -156,6 +157,9 @@ func NewTree() *BPTree {
 }
 
 var queue *Node
+
+// queueMu guards queue: it is shared by the trees of every database opened in the process.
+var queueMu sync.Mutex
 
 func enqueue(node *Node) {
 	var c *Node
@@ -323,6 +327,9 @@ func (t *BPTree) WriteNodes(rwMode RWMode, syncEnable bool, flag int) error {
 	if err != nil {
 		return err
 	}
+
+	queueMu.Lock()
+	defer queueMu.Unlock()
 
 	queue = nil
 
